@@ -593,6 +593,10 @@ val m_noeol : n list -> n list -> bool
 
 val m_escaped : n list -> n list -> bool
 
+val nOEOL_SUFFIX : n list
+
+val escaped_body : n list -> n list
+
 val sTAR : n
 
 val qM : n
